@@ -14,6 +14,9 @@ if os.environ.get('_VZ_ONE') != '1':
     rc = subprocess.run([env.PY] + sys.argv, env=e, cwd='/verif').returncode
     pin.cleanup()
     sys.exit(rc)
+import faulthandler
+if os.environ.get('VZ_DUMP_AFTER'):
+    faulthandler.dump_traceback_later(float(os.environ['VZ_DUMP_AFTER']), exit=True)
 mod = importlib.import_module('vz.props.' + prop.lower())
 case = next(c for c in mod.cases(tier, seed) if c['id'] == cid)
 case.setdefault('seed', seed)
